@@ -3,6 +3,30 @@
 // class per slab).  Explored exhaustively up to a preemption bound, once with ASan + oracles and once
 // under ThreadSanitizer.
 #include "../engine/vsched.hpp"
+// the spinlocks of frg/spinlock.hpp as the pool's Mutex: every __atomic builtin and spin hint becomes a scheduling point
+#define __atomic_fetch_add(p, v, m) ::verif::hook_fetch_add(p, v, m)
+#define __atomic_load_n(p, m) ::verif::hook_load_n(p, m)
+#define __atomic_store_n(p, v, m) ::verif::hook_store_n(p, v, m)
+#define __atomic_exchange_n(p, v, m) ::verif::hook_exchange_n(p, v, m)
+#define __atomic_fetch_sub(p, v, m) ::verif::hook_fetch_sub(p, v, m)
+#define __atomic_fetch_or(p, v, m) ::verif::hook_fetch_or(p, v, m)
+#define __atomic_fetch_and(p, v, m) ::verif::hook_fetch_and(p, v, m)
+#define __atomic_compare_exchange_n(p, e, d, w, ms, mf) ::verif::hook_compare_exchange_n(p, e, d, w, ms, mf)
+#define __atomic_test_and_set(p, m) ::verif::hook_test_and_set(p, m)
+#define __atomic_clear(p, m) ::verif::hook_clear(p, m)
+#define __builtin_ia32_pause() ::verif::hook_pause()
+#include <frg/spinlock.hpp>
+#undef __atomic_fetch_add
+#undef __atomic_load_n
+#undef __atomic_store_n
+#undef __atomic_exchange_n
+#undef __atomic_fetch_sub
+#undef __atomic_fetch_or
+#undef __atomic_fetch_and
+#undef __atomic_compare_exchange_n
+#undef __atomic_test_and_set
+#undef __atomic_clear
+#undef __builtin_ia32_pause
 #include <frg/slab.hpp>
 #include <mutex>
 #include <algorithm>
@@ -80,9 +104,9 @@ struct Script { std::vector<std::vector<Op>> threads; std::vector<Op> setup; int
 
 struct Blk { uintptr_t p = 0; size_t req = 0, size = 0; int owner = -1; };
 
-template<bool Aligned>
+template<bool Aligned, class Mx = VMutex>
 struct MtHarness {
-	using Pool = frg::slab_pool<Policy<Aligned>, VMutex>;
+	using Pool = frg::slab_pool<Policy<Aligned>, Mx>;
 	Script sc; size_t skew;
 	Policy<Aligned> policy;
 	alignas(64) unsigned char pool_store[sizeof(Pool)];
@@ -232,6 +256,11 @@ static std::vector<Instance> instances(const std::string &tier) {
 		std::string n = name + "-b" + std::to_string(bound);
 		if(aligned) v.push_back(sched_instance<MtHarness<true>>(n, o, s, skew)); else v.push_back(sched_instance<MtHarness<false>>(n, o, s, skew));
 	};
+	auto add_spin = [&](const std::string &name, int bound, Script s, bool ticket) {
+		SchedOptions o; o.bound = bound; o.horizon = 6000;
+		std::string n = name + "-b" + std::to_string(bound);
+		if(ticket) v.push_back(sched_instance<MtHarness<true, frg::ticket_spinlock>>(n, o, s, (size_t)0)); else v.push_back(sched_instance<MtHarness<true, frg::simple_spinlock>>(n, o, s, (size_t)0));
+	};
 	int B = th ? 4 : 3;
 	// H1: two threads find the class empty and both map a slab
 	add("H1-both-map", B, mkscript({{A_(0, 1024), F_(0)}, {A_(0, 1024), F_(0)}}));
@@ -249,6 +278,11 @@ static std::vector<Instance> instances(const std::string &tier) {
 	add("H7-full-slab-refill", B, mkscript({{F_(100), A_(0, 1024)}, {F_(101), A_(1, 600)}}, {A_(0, 1024), A_(1, 1024), A_(2, 1024)}));
 	// H10: four threads on one class (the property speaks of 2-8 threads); bound 1 keeps it small
 	add("H10-four-threads", th ? 2 : 1, mkscript({{A_(0, 1024), F_(0)}, {A_(0, 1024), F_(0)}, {A_(0, 1024), D_(0)}, {A_(0, 600), F_(0)}}));
+	// the pool over the library's own spinlocks (anchor spinlock.hpp): the lock words are scheduling points themselves, so the
+	// happens-before edge between successive holders is the spinlock's, not the scheduler's
+	add_spin("H1-both-map-ticket-spinlock", th ? 2 : 1, mkscript({{A_(0, 1024), F_(0)}, {A_(0, 1024), F_(0)}}), true);
+	add_spin("H3-cross-thread-free-ticket-spinlock", th ? 2 : 1, mkscript({{A_(0, 1024), S_(0, 0), A_(1, 1024), F_(1)}, {V_(0, 0), F_(0)}}), true);
+	add_spin("H1-both-map-simple-spinlock", th ? 2 : 1, mkscript({{A_(0, 1024), F_(0)}, {A_(0, 1024), F_(0)}}), false);
 	if(th) {
 		add("H1-both-map-all", 1000, mkscript({{A_(0, 1024), F_(0)}, {A_(0, 1024), F_(0)}}));
 		add("H8-three-allocators", 2, mkscript({{A_(0, 1024), F_(0)}, {A_(0, 1024), F_(0)}, {A_(0, 1024), F_(0)}}));
